@@ -98,13 +98,15 @@ def op_load(state: State, a: Dict[str, Any], env: simenv.SimEnv) -> Any:
         ta = TraceAnalysis(trace_files=files, trace_dir=trace_dir, include_last_profiler_step=inc)
         t = ta.t
     else:
-        prev = state.misc.get("last_trace_object")
-        if a.get("retry_same_object") and prev is not None:
-            # the user calls the loading method again on the object whose previous attempt raised
-            t = prev
+        # the user calls the loading method again on the object of the previous attempt - when that attempt
+        # got as far as having an object (same arguments, same method)
+        key = json.dumps([mode, via, a.get("files"), a.get("subdir"), a.get("abs_files", True)], sort_keys=True, default=str)
+        prev = state.misc.pop("last_trace_object", None)
+        if a.get("retry_same_object") and prev is not None and prev[0] == key:
+            t = prev[1]
         else:
             t = Trace(trace_files=files, trace_dir=trace_dir)
-        state.misc["last_trace_object"] = t
+        state.misc["last_trace_object"] = (key, t)
         if mode == "full":
             t.load_traces(include_last_profiler_step=inc, use_multiprocessing=bool(a.get("mp", True)),
                           use_memory_profiling=bool(a.get("memprof", True)))
